@@ -145,6 +145,63 @@ def gen_case(rng, i):
     return {"base": base, "rule": [strat, retry, minr, iv, buckets, maxrt, bits(thr)], "pre": pre, "progs": progs, "steps": steps}
 
 
+def gen_free16(rng, i):
+    strat = rng.pick([1, 2])
+    retry = rng.pick([1, 2, 5])
+    base = 1_700_000_000_000 + rng.randrange(0, 10_000_000)
+    rule = [strat, retry, 1, 10000, 1, 0, bits(1.0 if strat == 2 else 0.5)]
+    pre = [("B",), ("X", 1), ("A", retry)]
+    nt = rng.pick([4, 6, 8])
+    progs = []
+    for t in range(nt):
+        ops = []
+        for _ in range(rng.pick([40, 80])):
+            ops.append(("B", 0))
+            ops.append(("X", 1 if rng.chance(0.7) else 0))
+        progs.append(ops)
+    return {"base": base, "rule": rule, "pre": pre, "progs": progs, "steps": [], "free": True}
+
+
+class C16Free(PropBase):
+    """real threads running freely (no forced schedule) against a breaker that keeps tripping and probing"""
+    id = "C16"
+    harness = "cbc"
+    per_process = True
+    props_file = "Props/C16.v"
+    props_module = "Props.C16"
+    coq_imports = ("From SV Require Import Model.Base Model.F64 Model.LeapArray Model.Breaker Model.ConcCb Spec.C16Spec "
+                   "Run.Common Run.RunConc Run.RunConcCb.\nOpen Scope N_scope.")
+    case_type = "kcase"
+    agree_fn = "agree_free"
+    spec_fn = "spec_c16_free"
+    counts = {"quick": 48, "thorough": 400}
+    rule = ("one process per case: 4-8 real threads each build and complete 40-80 entries (70% with an error) on a breaker "
+            "with threshold 1 and a retry time of 1-5 ms, freely in parallel while a ticker advances the virtual clock; "
+            "the listener events (delivered under the state lock) must form a valid path with every Open to Half-Open at or "
+            "after the deadline in force; non-trivial = at least four transitions")
+    assumptions = []
+    trusted_extra = []
+    partial_note = ""
+
+    def gen(self, rng, n, tier):
+        return [gen_free16(rng, i) for i in range(n)]
+
+    def line(self, c):
+        return C16.line(self, c) + " F"
+
+    def key(self, c):
+        return self.line(c)
+
+    def coq(self, c):
+        return C16.coq(self, dict(c, progs=[p[:2] for p in c["progs"]]))     # the programs are not needed by the predicate
+
+    def nontrivial(self, c, obs):
+        return sum(1 for e in C16._log(self, obs) if e[0] == 1) >= 4
+
+    def stats(self, cases, obs):
+        return {"transitions": sum(sum(1 for e in C16._log(self, o) if e[0] == 1) for o in obs if o)}
+
+
 class C16(PropBase):
     id = "C16"
     harness = "cbc"
@@ -174,6 +231,9 @@ class C16(PropBase):
     partial_note = ("the theorems quantify over every schedule of the model's segments (a thread runs from one scheduling "
                     "point to the next); the mutex-protected compare-and-set inside each from_ function is one atomic step, "
                     "which is what the state mutex provides; counter updates racing with reset_metric are not part of the property")
+
+    def parts(self):
+        return [self, C16Free()]
 
     def gen(self, rng, n, tier):
         return [gen_case(rng, i) for i in range(n)]
